@@ -27,12 +27,24 @@ type Msg struct {
 	Part int    `json:"part,omitempty"` // push: n-th message the primary pushed for that operation
 	Len  int    `json:"len,omitempty"`  // keep only the first Len entries (0 = all)
 	Drop []int  `json:"drop,omitempty"` // positions removed from the message (non-contiguous message)
+	// Inner: the message keeps its first entry, its last entry and its length but
+	// is disturbed inside: "dup" = entry I replaced by a copy of entry J (a
+	// duplicate plus a drop), "swap" = entries I and J exchanged, "seqswap" =
+	// only the sequence numbers of the envelopes I and J exchanged
+	Inner *InnerFault `json:"inner,omitempty"`
 	// Enc: "" as the primary produced it (polls: plain; pushes: with the primary's own
 	// Compressed/Codec label), "zstd" / "snappy": payloads really compressed and labelled
 	Enc    string `json:"enc,omitempty"`
 	Ack    bool   `json:"ack,omitempty"`     // handed to the waiting-for-data path (processEntries)
 	FailAt int    `json:"fail_at,omitempty"` // the applier reports an error at the n-th Apply of this message (1-based, 0 = never)
 	Why    string `json:"why,omitempty"`     // generator's intent (progress, stale, ahead, dup, resend, ...), informational
+}
+
+// InnerFault disturbs a message inside without changing its span.
+type InnerFault struct {
+	Kind string `json:"kind"` // dup | swap | seqswap
+	I    int    `json:"i"`
+	J    int    `json:"j"`
 }
 
 // fakeClient is the replica's view of the primary's unary RPCs.
@@ -187,6 +199,7 @@ type runner struct {
 	repEng *engine.EngineFacade
 	// observations for classification
 	sawDup, sawGap, sawHole, sawReset, sawCompressed, sawMislabel, sawAck, sawNackAnswered, sawFail, sawSplitOp bool
+	sawInner                                                                                                    map[string]bool
 
 	nMsgs, nErrs int
 	partialCause string
@@ -211,7 +224,7 @@ func codecOf(enc string) pb.CompressionCodec {
 }
 
 func newRunner(h *history, c *Case) (*runner, error) {
-	r := &runner{h: h, c: c, cl: &fakeClient{}}
+	r := &runner{h: h, c: c, cl: &fakeClient{}, sawInner: map[string]bool{}}
 	r.o = newOracle(h.tr, !ev.Flag("tx_atomic_visibility"))
 	r.ap = &recApplier{o: r.o}
 	if c.Variant == "engine" {
@@ -332,6 +345,24 @@ func (r *runner) build(m *Msg, plainTwin bool) (*pb.WALStreamResponse, error) {
 		}
 		resp.Entries = kept
 	}
+	if f := m.Inner; f != nil && len(resp.Entries) >= 3 {
+		n := len(resp.Entries)
+		i, j := f.I, f.J
+		if i >= 1 && i <= n-2 && j >= 0 && j <= n-1 && i != j {
+			switch f.Kind {
+			case "dup":
+				resp.Entries[i] = proto.Clone(resp.Entries[j]).(*pb.WALEntry)
+			case "swap":
+				if j >= 1 && j <= n-2 {
+					resp.Entries[i], resp.Entries[j] = resp.Entries[j], resp.Entries[i]
+				}
+			case "seqswap":
+				if j >= 1 && j <= n-2 {
+					resp.Entries[i].SequenceNumber, resp.Entries[j].SequenceNumber = resp.Entries[j].SequenceNumber, resp.Entries[i].SequenceNumber
+				}
+			}
+		}
+	}
 	if plainTwin && m.Enc != "" {
 		// the uncompressed twin of a really compressed message
 		resp.Compressed = false
@@ -395,6 +426,12 @@ func (r *runner) deliver(i int, m *Msg) (nack uint64, v *violation, err error) {
 			} else if d != 1 {
 				hole = true
 			}
+		}
+		if m.Inner != nil && (hole || rep) {
+			// same first entry, last entry and length, disturbed inside
+			hole, rep = true, false
+			r.sawInner[m.Inner.Kind] = true
+			ctx += "+inner-" + m.Inner.Kind
 		}
 		if hole {
 			r.sawHole = true
